@@ -40,13 +40,13 @@ func kindsFor(n *CNode, hasArrayParent bool) []string {
 		}
 		k = append(k, "int+1", "int-1", "type=bstr0", "type=tstr", "type=null", "type=arr0", "type=map0", "type=true", "headinfl")
 	case 2:
-		k = append(k, "flipfirst", "fliplast", "flipmid", "xorall", "trunc1", "trunc2", "half", "keep2", "ext1", "ext2", "empty", "type=null", "type=uint0", "type=tstr", "type=arr0", "headinfl", "lenclaim")
+		k = append(k, "flipfirst", "fliplast", "flipmid", "xorall", "trunc1", "trunc2", "half", "keep2", "ext1", "ext2", "empty", "type=null", "type=uint0", "type=tstr", "type=arr0", "headinfl", "lenclaim", "lenclaim31", "lenclaim63", "lenclaimmax")
 	case 3:
-		k = append(k, "flipfirst", "trunc1", "ext1", "empty", "badutf8", "type=bstr", "type=null", "type=uint0", "headinfl", "lenclaim")
+		k = append(k, "flipfirst", "trunc1", "ext1", "empty", "badutf8", "type=bstr", "type=null", "type=uint0", "headinfl", "lenclaim", "lenclaim63", "lenclaimmax")
 	case 7:
 		k = append(k, "toggle", "null", "uint0", "undefined", "type=bstr0")
 	case 4, 5:
-		k = append(k, "droplast", "duplast", "empty", "null", "countinfl", "swap01", "type=uint0")
+		k = append(k, "droplast", "duplast", "empty", "null", "countinfl", "countinfl31", "countinfl63", "countinflmax", "swap01", "type=uint0")
 	case 6:
 		k = append(k, "tag+1", "untag", "null")
 	}
@@ -158,6 +158,13 @@ func applyMutation(body []byte, path, kind string) []byte {
 		v := uint64(len(n.Bytes)) + 1<<16
 		n.rawArg = &v
 		n.Emb = nil
+	case kind == "lenclaim31" || kind == "lenclaim63" || kind == "lenclaimmax" || kind == "countinfl31" || kind == "countinfl63" || kind == "countinflmax":
+		// claimed sizes at the signed/unsigned boundaries of 32- and 64-bit ints
+		v := map[string]uint64{"31": 1 << 31, "63": 1 << 63, "max": 1<<64 - 1}[strings.TrimPrefix(strings.TrimPrefix(kind, "lenclaim"), "countinfl")]
+		n.rawArg = &v
+		if n.Major == 2 || n.Major == 3 {
+			n.Emb = nil
+		}
 	case kind == "countinfl":
 		v := uint64(len(n.Kids)) + 1<<20
 		if n.Major == 5 {
